@@ -3,7 +3,7 @@
 
 Every wrapper of src/cinter/splinetable.cpp except the three that marshal array_view / unique_ptr arguments
 (splinetable_glamfit, splinetable_grideval, ndsparse_destroy) is extracted mechanically (R34: `real_table.op(args)` becomes
-`vp_m_op(object, args)`; R22d: try{B}catch(std::exception&){H}catch(...){H} becomes B with `if (thrown) {clear; H}` after every
+`vp_m_op(object, args)`; R22d: try{B}catch(std::exception&){H}catch(...){H'} becomes B with `if (thrown) {clear; H}` after every
 statement that calls a C++ operation) and executed from CBMC's GOTO program.  The C++ operations are ASSUMED CONTRACTS
 supplied by the check: each call either returns a scripted value or - when the operation's own text contains a throw
 statement or an allocation (scanned in the headers on every run) - throws.  For every wrapper and every outcome of the
@@ -256,7 +256,7 @@ def main():
     rep.assume("PARTIAL / MODULAR: the C++ operations are assumed contracts (return a value or - if their text contains a throw statement or an allocation - throw); what they compute and whether THEY leak is C01-C20, not decided here",
                "splinetable_glamfit, splinetable_grideval and ndsparse_destroy are not extracted (array_view / unique_ptr marshalling); call sequences over several handles are not needed because a wrapper touches only its own handle (checked: the operation is called on the handle's object)",
                "which operations may throw is decided by a text scan of their definitions in the headers (throw, new, allocate<T>, std::vector/string/stringstream/unique_ptr/make_pair, malloc); an operation classified no-throw is never made to throw",
-               "exceptions are a ghost flag (R7 / R22d): `catch(std::exception&)` and `catch(...)` handlers must be textually identical apart from the message printed to stderr, which is dropped")
+               "exceptions are a ghost flag (R7 / R22d): the `catch(std::exception&)` handler is the one modelled (every exception the operations throw derives from std::exception; its message to stderr is dropped), `catch(...)` is not")
     rep.trust("tools/gotoexec.py", "goto-cc front end", "tools/extract.py rules")
     rep.finish(None)
 
